@@ -69,3 +69,15 @@ pub struct WrapSkip {
     pub tag: u8,
     pub inner: u32,
 }
+
+ssz::four_byte_option_impl!(legacy_u64, u64);
+ssz::four_byte_option_impl!(legacy_vec, Vec<u8>);
+
+#[derive(Encode, Decode)]
+pub struct WithLegacy {
+    pub a: u16,
+    #[ssz(with = "legacy_u64")]
+    pub b: Option<u64>,
+    #[ssz(with = "legacy_vec")]
+    pub c: Option<Vec<u8>>,
+}
